@@ -401,6 +401,9 @@ async fn run(plan: &SessionPlan, cx: &mut Cx) -> Res {
         if sut_task.is_finished() {
             break;
         }
+        if s2p.held() > 4 << 20 || p2s.held() > 4 << 20 {
+            return Err(Violation::new("hang/message-blowup", "the session produces messages of several megabytes for a handful of entries".to_string()));
+        }
         // SUT -> peer
         if !cut_from_done {
             let held = s2p.held();
